@@ -32,6 +32,9 @@ type KnownFinding struct {
 	Status    string `json:"status"` // "open" or "fixed"
 	Commit    string `json:"commit,omitempty"`
 	Input     string `json:"failing_input,omitempty"`
+	// Observed, when set, must occur in the obligation's detail: the finding covers this
+	// particular wrong behaviour of the construct, not any other.
+	Observed string `json:"observed,omitempty"`
 }
 
 type Ctx struct {
@@ -130,7 +133,7 @@ func (c *Ctx) Finish() int {
 		}
 		matched := false
 		for _, k := range c.known {
-			if k.Status == "open" && k.Property == c.Prop && k.Rule == o.Rule && k.Construct == o.Construct {
+			if k.Status == "open" && k.Property == c.Prop && k.Rule == o.Rule && k.Construct == o.Construct && strings.Contains(o.Detail, k.Observed) && !o.Undecided {
 				matched = true
 				fmt.Printf("KNOWN-FINDING: property=%s rule=%s construct=%s %s\n", c.Prop, o.Rule, o.Construct, k.What)
 			}
